@@ -1,16 +1,457 @@
-/- TEMPORARY STUB — to be replaced by the port of encoding/json. -/
 import Jqawk.Model.Bytes
+/-
+  Byte-exact model of Go 1.23 `encoding/json`:
+    * one `json.NewDecoder(r).Decode(&v)` call with `var v any`  (`decodeOne`)
+    * `json.MarshalIndent(v, "", "  ")`                          (`marshalIndent`)
+  Core library only.  All functions are total and structurally recursive (no fuel needed):
+  the decoder is a single left-to-right fold of the scanner state machine of scanner.go,
+  extended with the partially built values (Go runs the scanner twice: stream.go `readValue`
+  finds the extent, decode.go `valueInterface` re-scans it and builds the value).
+-/
 namespace Jqawk
+
+/-- A decoded / encodable JSON tree.  Numbers keep their literal text.  After decoding, object
+    members are sorted by key (bytewise), unique (last duplicate wins), strings are decoded bytes. -/
 inductive JVal
   | null | bool (b : Bool) | num (lit : Bytes) | str (s : Bytes)
   | arr (items : List JVal) | obj (members : List (Bytes × JVal))
-  deriving Inhabited
+  deriving Repr, Inhabited
+
+namespace JVal
+mutual
+/-- structural equality (`deriving DecidableEq` does not support this nested inductive) -/
+def beq : JVal → JVal → Bool
+  | .null, .null => true
+  | .bool a, .bool b => a == b
+  | .num a, .num b => a == b
+  | .str a, .str b => a == b
+  | .arr a, .arr b => beqItems a b
+  | .obj a, .obj b => beqMembers a b
+  | _, _ => false
+def beqItems : List JVal → List JVal → Bool
+  | [], [] => true
+  | x :: xs, y :: ys => beq x y && beqItems xs ys
+  | _, _ => false
+def beqMembers : List (Bytes × JVal) → List (Bytes × JVal) → Bool
+  | [], [] => true
+  | (k, x) :: xs, (l, y) :: ys => k == l && beq x y && beqMembers xs ys
+  | _, _ => false
+end
+instance : BEq JVal := ⟨beq⟩
+end JVal
+
 namespace Json
-inductive Tail | more | eof | ioerr
+
+/-! ## Helpers shared by decoder and encoder -/
+
+/-- scanner.go `isSpace` -/
+def isSpace (c : UInt8) : Bool := c == 0x20 || c == 0x09 || c == 0x0D || c == 0x0A
+
+def isDigit (c : UInt8) : Bool := 0x30 ≤ c && c ≤ 0x39
+
+/-- `strings.Compare` on byte strings (Go sorts map keys with it; also our map-key order) -/
+def cmpBytes : Bytes → Bytes → Ordering
+  | [], [] => .eq
+  | [], _ :: _ => .lt
+  | _ :: _, [] => .gt
+  | a :: as, b :: bs => if a < b then .lt else if b < a then .gt else cmpBytes as bs
+
+/-- Go `m[k] = v` on a map represented as a key-sorted, duplicate-free association list -/
+def insertMember {α : Type} (k : Bytes) (v : α) : List (Bytes × α) → List (Bytes × α)
+  | [] => [(k, v)]
+  | (k', v') :: ms =>
+    match cmpBytes k k' with
+    | .lt => (k, v) :: (k', v') :: ms
+    | .eq => (k, v) :: ms
+    | .gt => (k', v') :: insertMember k v ms
+
+/-- `utf8.DecodeRune (c :: rest)`: the width 1..4 of the well-formed encoding starting with `c`,
+    or 0 when Go returns `(RuneError, 1)` (table `first` / `acceptRanges` of unicode/utf8). -/
+def utf8Width (c : UInt8) (rest : Bytes) : Nat :=
+  let cont (x : UInt8) : Bool := 0x80 ≤ x && x ≤ 0xBF
+  if c < 0x80 then 1
+  else if c < 0xC2 then 0
+  else if c < 0xE0 then
+    match rest with
+    | c1 :: _ => if cont c1 then 2 else 0
+    | _ => 0
+  else if c < 0xF0 then
+    match rest with
+    | c1 :: c2 :: _ =>
+      let lo : UInt8 := if c == 0xE0 then 0xA0 else 0x80
+      let hi : UInt8 := if c == 0xED then 0x9F else 0xBF
+      if lo ≤ c1 && c1 ≤ hi && cont c2 then 3 else 0
+    | _ => 0
+  else if c < 0xF5 then
+    match rest with
+    | c1 :: c2 :: c3 :: _ =>
+      let lo : UInt8 := if c == 0xF0 then 0x90 else 0x80
+      let hi : UInt8 := if c == 0xF4 then 0x8F else 0xBF
+      if lo ≤ c1 && c1 ≤ hi && cont c2 && cont c3 then 4 else 0
+    | _ => 0
+  else 0
+
+/-- Driver for the two string loops (`unquoteBytes`, `appendString`).  `f c rest` describes one loop
+    iteration at a position holding `c` followed by `rest`: the output bytes (reversed) and how many
+    FURTHER input bytes the iteration consumes; those are skipped.  Output accumulates reversed. -/
+def transduce (f : UInt8 → Bytes → Bytes × Nat) : Nat → Bytes → Bytes → Bytes
+  | _, [], acc => acc
+  | skip + 1, _ :: rest, acc => transduce f skip rest acc
+  | 0, c :: rest, acc => let r := f c rest; transduce f r.2 rest (r.1 ++ acc)
+
+/-- U+FFFD in UTF-8, reversed -/
+def fffdRev : Bytes := [0xBD, 0xBF, 0xEF]
+
+/-! ## Decoding strings: decode.go `unquoteBytes` -/
+
+/-- `utf8.EncodeRune` for a non-surrogate rune `r ≤ 0x10FFFF`, pushed (reversed) onto `acc` -/
+def pushRune (r : Nat) (acc : Bytes) : Bytes :=
+  let b (n : Nat) : UInt8 := n.toUInt8
+  if r < 0x80 then b r :: acc
+  else if r < 0x800 then b (0x80 + r % 64) :: b (0xC0 + r / 64) :: acc
+  else if r < 0x10000 then b (0x80 + r % 64) :: b (0x80 + r / 64 % 64) :: b (0xE0 + r / 4096) :: acc
+  else b (0x80 + r % 64) :: b (0x80 + r / 64 % 64) :: b (0x80 + r / 4096 % 64) :: b (0xF0 + r / 262144) :: acc
+
+def hexVal (c : UInt8) : Option Nat :=
+  if isDigit c then some (c.toNat - 0x30)
+  else if 0x61 ≤ c && c ≤ 0x66 then some (c.toNat - 0x57)
+  else if 0x41 ≤ c && c ≤ 0x46 then some (c.toNat - 0x37)
+  else none
+
+/-- decode.go `getu4`: the code unit of a leading `\uXXXX`, `none` for Go's -1 -/
+def getu4 : Bytes → Option Nat
+  | 0x5C :: 0x75 :: a :: b :: c :: d :: _ =>
+    match hexVal a, hexVal b, hexVal c, hexVal d with
+    | some a, some b, some c, some d => some (((a * 16 + b) * 16 + c) * 16 + d)
+    | _, _, _, _ => none
+  | _ => none
+
+/-- One iteration of the slow loop of `unquoteBytes` (the fast path gives the same result).
+    The `!ok` returns of Go are unreachable on scanner-validated literals; here they yield no output. -/
+def unquoteAt (c : UInt8) (rest : Bytes) : Bytes × Nat :=
+  if c == 0x5C then                                           -- backslash
+    match rest with
+    | [] => ([], 0)
+    | e :: _ =>
+      if e == 0x75 then                                       -- \uXXXX
+        match getu4 (c :: rest) with
+        | none => ([], 0)
+        | some rr =>
+          if 0xD800 ≤ rr && rr < 0xE000 then                  -- utf16.IsSurrogate
+            match getu4 (rest.drop 5) with                    -- utf16.DecodeRune rr rr1
+            | some rr1 =>
+              if rr < 0xDC00 && 0xDC00 ≤ rr1 && rr1 < 0xE000
+              then (pushRune (0x10000 + (rr - 0xD800) * 1024 + (rr1 - 0xDC00)) [], 11)
+              else (fffdRev, 5)
+            | none => (fffdRev, 5)
+          else (pushRune rr [], 5)
+      else
+        let d : UInt8 := if e == 0x62 then 0x08 else if e == 0x66 then 0x0C else if e == 0x6E then 0x0A
+                         else if e == 0x72 then 0x0D else if e == 0x74 then 0x09 else e   -- " \ / stay
+        ([d], 1)
+  else if c < 0x80 then ([c], 0)
+  else match utf8Width c rest with                            -- "coerce to well-formed UTF-8"
+    | 0 => (fffdRev, 0)
+    | w + 1 => ((c :: rest.take w).reverse, w)
+
+/-- decode.go `unquote` applied to the bytes between the quotes of a validated string literal -/
+def unquote (raw : Bytes) : Bytes := (transduce unquoteAt 0 raw []).reverse
+
+/-! ## The scanner (scanner.go) extended with value construction (decode.go `*Interface`) -/
+
+/-- Go `s.step`.  `endTop v` is `stateEndValue` with an empty parse stack (a complete top-level
+    scalar `v`, waiting for the delayed `scanEnd`); `lit rest v` covers stateT…stateNul: the bytes
+    `rest` of true/false/null are still expected; `inStringEscU n`: `n` more hex digits follow this one. -/
+inductive Step
+  | beginValue | beginValueOrEmpty | beginStringOrEmpty | beginString | endValue
+  | endTop (v : JVal)
+  | inString | inStringEsc | inStringEscU (n : Nat)
+  | neg | s0 | s1 | dot | dot0 | e | eSign | e0
+  | lit (rest : Bytes) (v : JVal)
+
+/-- An entry of Go's `parseState` stack plus the values collected so far.
+    `arr acc` = parseArrayValue (`acc` reversed); `obj ms key isValue` = parseObjectKey (`isValue = false`,
+    `key` = the key once read) / parseObjectValue (`isValue = true`); `ms` is the Go map built so far. -/
+inductive Frame
+  | arr (acc : List JVal)
+  | obj (ms : List (Bytes × JVal)) (key : Bytes) (isValue : Bool)
+
+/-- scanner state; `lit` = raw bytes of the literal in progress (reversed), `bad` = some number literal
+    was out of float64 range (`decodeState.savedError`: reported only after the whole value was read). -/
+structure St where
+  step : Step
+  stack : List Frame
+  depth : Nat          -- = stack.length
+  lit : Bytes
+  bad : Bool
+
+/-- result of one `s.step(s, c)` as seen by `readValue` -/
+inductive Out
+  | cont (s : St)                                  -- opcode < scanEnd (and not a closing top-level bracket)
+  | done (v : JVal) (bad : Bool) (consumed : Bool) -- top-level value complete; `consumed = false`: scanEnd,
+                                                   -- the value ended BEFORE this byte; `true`: it is the closing bracket
+  | err                                            -- scanError
+
+def maxNestingDepth : Nat := 10000
+
+/-- `scanner.reset` -/
+def St.init : St := { step := .beginValue, stack := [], depth := 0, lit := [], bad := false }
+
+/-- A value is complete (Go: `s.step = stateEndValue`): store it where `valueInterface`'s caller puts it. -/
+def deliver (s : St) (v : JVal) : St :=
+  match s.stack with
+  | [] => { s with step := .endTop v }
+  | .arr acc :: fs => { s with step := .endValue, stack := .arr (v :: acc) :: fs }
+  | .obj ms _ false :: fs =>
+    { s with step := .endValue, stack := .obj ms (match v with | .str k => k | _ => []) false :: fs }
+  | .obj ms k true :: fs => { s with step := .endValue, stack := .obj (insertMember k v ms) [] true :: fs }
+
+/-- `pushParseState`: fails when the new depth exceeds `maxNestingDepth` -/
+def push (s : St) (f : Frame) (next : Step) : Out :=
+  if s.depth + 1 ≤ maxNestingDepth
+  then .cont { s with step := next, stack := f :: s.stack, depth := s.depth + 1 }
+  else .err
+
+/-- `popParseState` after a closing bracket; `fs` = the remaining stack, `v` = the finished composite.
+    With `fs = []` readValue "invents a space" and stops right after the bracket. -/
+def pop (s : St) (fs : List Frame) (v : JVal) : Out :=
+  match fs with
+  | [] => .done v s.bad true
+  | _ => .cont (deliver { s with stack := fs, depth := s.depth - 1 } v)
+
+/-- `stateEndValue` with a non-empty parse stack -/
+def endValue (s : St) (c : UInt8) : Out :=
+  if isSpace c then .cont { s with step := .endValue }
+  else match s.stack with
+    | [] => .err                                              -- not reachable (see `afterValue`)
+    | .obj ms k false :: fs =>
+      if c == 0x3A then .cont { s with step := .beginValue, stack := .obj ms k true :: fs } else .err
+    | .obj ms _ true :: fs =>
+      if c == 0x2C then .cont { s with step := .beginString, stack := .obj ms [] false :: fs }
+      else if c == 0x7D then pop s fs (.obj ms) else .err
+    | .arr acc :: fs =>
+      if c == 0x2C then .cont { s with step := .beginValue }
+      else if c == 0x5D then pop s fs (.arr acc.reverse) else .err
+
+/-- `stateEndValue` in general: with an empty stack it is `stateEndTop`, which answers scanEnd to ANY byte. -/
+def afterValue (s : St) (c : UInt8) : Out :=
+  match s.step with
+  | .endTop v => .done v s.bad false
+  | _ => endValue s c
+
+/-- a number literal ends before `c` (the `return stateEndValue(s, c)` of state0/stateDot0/stateE0);
+    `convertNumber` (strconv.ParseFloat range error) is recorded in `bad`. -/
+def endNumber (numOk : Bytes → Bool) (s : St) (c : UInt8) : Out :=
+  let lit := s.lit.reverse
+  afterValue (deliver { s with lit := [], bad := s.bad || !numOk lit } (.num lit)) c
+
+/-- `stateBeginValue` -/
+def beginValue (s : St) (c : UInt8) : Out :=
+  if isSpace c then .cont s
+  else if c == 0x7B then push s (.obj [] [] false) .beginStringOrEmpty                  -- {
+  else if c == 0x5B then push s (.arr []) .beginValueOrEmpty                            -- [
+  else if c == 0x22 then .cont { s with step := .inString, lit := [] }                  -- "
+  else if c == 0x2D then .cont { s with step := .neg, lit := [c] }                      -- -
+  else if c == 0x30 then .cont { s with step := .s0, lit := [c] }                       -- 0
+  else if c == 0x74 then .cont { s with step := .lit [0x72, 0x75, 0x65] (.bool true) }          -- t rue
+  else if c == 0x66 then .cont { s with step := .lit [0x61, 0x6C, 0x73, 0x65] (.bool false) }   -- f alse
+  else if c == 0x6E then .cont { s with step := .lit [0x75, 0x6C, 0x6C] .null }                 -- n ull
+  else if isDigit c then .cont { s with step := .s1, lit := [c] }                       -- 1..9
+  else .err
+
+/-- `stateBeginString` -/
+def beginString (s : St) (c : UInt8) : Out :=
+  if isSpace c then .cont s
+  else if c == 0x22 then .cont { s with step := .inString, lit := [] }
+  else .err
+
+/-- continue a literal with byte `c` in state `next` -/
+def more (s : St) (c : UInt8) (next : Step) : Out := .cont { s with step := next, lit := c :: s.lit }
+
+/-- `state0` (also the tail of `state1`) -/
+def state0 (numOk : Bytes → Bool) (s : St) (c : UInt8) : Out :=
+  if c == 0x2E then more s c .dot
+  else if c == 0x65 || c == 0x45 then more s c .e
+  else endNumber numOk s c
+
+/-- `stateESign` -/
+def stateESign (s : St) (c : UInt8) : Out := if isDigit c then more s c .e0 else .err
+
+/-- `s.step(s, c)`: dispatch on the current step function -/
+def step (numOk : Bytes → Bool) (s : St) (c : UInt8) : Out :=
+  match s.step with
+  | .beginValue => beginValue s c
+  | .beginValueOrEmpty =>
+    if isSpace c then .cont s else if c == 0x5D then endValue s c else beginValue s c
+  | .beginStringOrEmpty =>
+    if isSpace c then .cont s
+    else if c == 0x7D then
+      match s.stack with                                      -- parseState[n-1] = parseObjectValue
+      | .obj ms k _ :: fs => endValue { s with stack := .obj ms k true :: fs } c
+      | _ => .err
+    else beginString s c
+  | .beginString => beginString s c
+  | .endValue => endValue s c
+  | .endTop v => .done v s.bad false
+  | .inString =>
+    if c == 0x22 then .cont (deliver { s with lit := [] } (.str (unquote s.lit.reverse)))
+    else if c == 0x5C then more s c .inStringEsc
+    else if c < 0x20 then .err
+    else more s c .inString
+  | .inStringEsc =>
+    if c == 0x62 || c == 0x66 || c == 0x6E || c == 0x72 || c == 0x74 || c == 0x5C || c == 0x2F || c == 0x22
+    then more s c .inString
+    else if c == 0x75 then more s c (.inStringEscU 3)
+    else .err
+  | .inStringEscU n =>
+    if (hexVal c).isSome then more s c (match n with | 0 => .inString | k + 1 => .inStringEscU k) else .err
+  | .neg => if c == 0x30 then more s c .s0 else if isDigit c then more s c .s1 else .err
+  | .s1 => if isDigit c then more s c .s1 else state0 numOk s c
+  | .s0 => state0 numOk s c
+  | .dot => if isDigit c then more s c .dot0 else .err
+  | .dot0 =>
+    if isDigit c then more s c .dot0
+    else if c == 0x65 || c == 0x45 then more s c .e
+    else endNumber numOk s c
+  | .e => if c == 0x2B || c == 0x2D then more s c .eSign else stateESign s c
+  | .eSign => stateESign s c
+  | .e0 => if isDigit c then more s c .e0 else endNumber numOk s c
+  | .lit rest v =>
+    match rest with
+    | [] => .err
+    | [x] => if c == x then .cont (deliver s v) else .err
+    | x :: xs => if c == x then .cont { s with step := .lit xs v } else .err
+
+/-! ## stream.go `Decode` / `readValue` -/
+
+inductive Tail
+  | more    -- the reader may still deliver bytes
+  | eof     -- clean end of stream
+  | ioerr   -- the reader returned a non-EOF error after these bytes
+
 inductive DecodeRes
-  | value (v : JVal) (rest : Bytes) | eof | error | needMore
-def decodeOne (_numOk : Bytes → Bool) (input : Bytes) (_tail : Tail) : DecodeRes :=
-  match input with | [] => .eof | _ => .error
-def marshalIndent (_v : JVal) : Bytes := []
+  | value (v : JVal) (rest : Bytes)
+  | eof
+  | error
+  | needMore
+  deriving Inhabited
+
+/-- The loop of `readValue` over the buffered bytes, then the handling of the reader's answer.
+    Precondition (see `decodeOne`): the input contains a non-space byte. -/
+def run (numOk : Bytes → Bool) : St → Bytes → Tail → DecodeRes
+  | s, c :: cs, t =>
+    match step numOk s c with
+    | .cont s' => run numOk s' cs t
+    | .done v bad consumed => if bad then .error else .value v (if consumed then cs else c :: cs)
+    | .err => .error
+  | _, [], .more => .needMore
+  | _, [], .ioerr => .error                                   -- the read error wins
+  | s, [], .eof =>
+    match step numOk s 0x20 with                              -- `dec.scan.step(&dec.scan, ' ') == scanEnd`
+    | .done v false _ => .value v []
+    | _ => .error                                             -- io.ErrUnexpectedEOF / UnmarshalTypeError
+
+/-- One `Decode(&v)` on a fresh scanner state. -/
+def decodeOne (numOk : Bytes → Bool) (input : Bytes) (tail : Tail) : DecodeRes :=
+  match input.dropWhile isSpace, tail with                    -- stateBeginValue skips leading space
+  | [], .more => .needMore
+  | [], .eof => .eof                                          -- `!nonSpace(dec.buf)`: io.EOF
+  | [], .ioerr => .error
+  | inp, t => run numOk St.init inp t
+
+/-! ## encode.go / indent.go: `MarshalIndent(v, "", "  ")` -/
+
+/-- `hex[n]` for n < 16 -/
+def hexDigit (n : UInt8) : UInt8 := if n < 10 then 0x30 + n else 0x57 + n
+
+/-- One iteration of the loop of `appendString` with escapeHTML = true (tables.go `htmlSafeSet`). -/
+def quoteAt (c : UInt8) (rest : Bytes) : Bytes × Nat :=
+  if c < 0x80 then
+    if c == 0x22 || c == 0x5C then ([c, 0x5C], 0)
+    else if c == 0x08 then ([0x62, 0x5C], 0)                  -- \b
+    else if c == 0x0C then ([0x66, 0x5C], 0)                  -- \f
+    else if c == 0x0A then ([0x6E, 0x5C], 0)                  -- \n
+    else if c == 0x0D then ([0x72, 0x5C], 0)                  -- \r
+    else if c == 0x09 then ([0x74, 0x5C], 0)                  -- \t
+    else if c < 0x20 || c == 0x3C || c == 0x3E || c == 0x26   -- control, < > &  →  \u00XX
+    then ([hexDigit (c &&& 0xF), hexDigit (c >>> 4), 0x30, 0x30, 0x75, 0x5C], 0)
+    else ([c], 0)
+  else match utf8Width c rest with
+    | 0 => ([0x64, 0x66, 0x66, 0x66, 0x75, 0x5C], 0)          -- the six characters \ufffd
+    | w + 1 =>
+      match c, rest with
+      | 0xE2, 0x80 :: 0xA8 :: _ => ([0x38, 0x32, 0x30, 0x32, 0x75, 0x5C], 2)   --
+      | 0xE2, 0x80 :: 0xA9 :: _ => ([0x39, 0x32, 0x30, 0x32, 0x75, 0x5C], 2)   --
+      | _, _ => ((c :: rest.take w).reverse, w)
+
+/-- `appendString`, output reversed onto `acc` -/
+def encString (s : Bytes) (acc : Bytes) : Bytes := 0x22 :: transduce quoteAt 0 s (0x22 :: acc)
+
+/-- indent.go `appendNewline` (prefix "", indent two spaces), reversed onto `acc` -/
+def newline : Nat → Bytes → Bytes
+  | 0, acc => 0x0A :: acc
+  | d + 1, acc => 0x20 :: 0x20 :: newline d acc
+
+/-- members of an object already rendered and sorted: `"key": value` lines separated by commas -/
+def joinMembers (d : Nat) : List (Bytes × Bytes) → Bool → Bytes → Bytes
+  | [], _, acc => acc
+  | (k, v) :: ms, first, acc =>
+    joinMembers d ms false (v ++ 0x20 :: 0x3A :: encString k (newline d (if first then acc else 0x2C :: acc)))
+
+mutual
+/-- the encoders of encode.go followed by `appendIndent`; `d` = current depth, output reversed onto `acc` -/
+def encVal (d : Nat) : JVal → Bytes → Bytes
+  | .null, acc => 0x6C :: 0x6C :: 0x75 :: 0x6E :: acc
+  | .bool true, acc => 0x65 :: 0x75 :: 0x72 :: 0x74 :: acc
+  | .bool false, acc => 0x65 :: 0x73 :: 0x6C :: 0x61 :: 0x66 :: acc
+  | .num lit, acc => lit.reverse ++ acc
+  | .str s, acc => encString s acc
+  | .arr [], acc => 0x5D :: 0x5B :: acc
+  | .arr (x :: xs), acc => 0x5D :: newline d (encItems (d + 1) (x :: xs) true (0x5B :: acc))
+  | .obj ms, acc =>
+    match encMembers (d + 1) ms [] with                       -- mapEncoder: sort by key
+    | [] => 0x7D :: 0x7B :: acc
+    | ms' => 0x7D :: newline d (joinMembers (d + 1) ms' true (0x7B :: acc))
+def encItems (d : Nat) : List JVal → Bool → Bytes → Bytes
+  | [], _, acc => acc
+  | x :: xs, first, acc => encItems d xs false (encVal d x (newline d (if first then acc else 0x2C :: acc)))
+/-- render every member value at depth `d` (reversed) and insert it into the key-sorted result -/
+def encMembers (d : Nat) : List (Bytes × JVal) → List (Bytes × Bytes) → List (Bytes × Bytes)
+  | [], sorted => sorted
+  | (k, v) :: ms, sorted => encMembers d ms (insertMember k (encVal d v []) sorted)
+end
+
+/-- `json.MarshalIndent(v, "", "  ")`; numbers: literal text verbatim (Go: `json.Number`) -/
+def marshalIndent (v : JVal) : Bytes := (encVal 0 v []).reverse
+
+/-! ## Kernel-checked sanity examples -/
+
+instance : BEq DecodeRes where
+  beq
+    | .value v r, .value w q => v == w && r == q
+    | .eof, .eof => true
+    | .error, .error => true
+    | .needMore, .needMore => true
+    | _, _ => false
+
+private def ok (_ : Bytes) : Bool := true
+/-- ASCII string to bytes (`String.toUTF8` does not reduce under `decide`) -/
+private def b (s : String) : Bytes := s.toList.map (fun c => c.toNat.toUInt8)
+
+example : (decodeOne ok (b "[1, {\"a\": null}] x") .more
+            == .value (.arr [.num (b "1"), .obj [(b "a", .null)]]) (b " x")) = true := by decide
+example : (decodeOne ok (b " truefalse") .eof == .value (.bool true) (b "false")) = true := by decide
+example : (decodeOne ok (b "12") .more == .needMore) = true := by decide
+example : (decodeOne ok (b "12") .eof == .value (.num (b "12")) []) = true := by decide
+example : (decodeOne ok (b "12") .ioerr == .error) = true := by decide
+example : (decodeOne ok (b " \n") .eof == .eof) = true := by decide
+example : (decodeOne ok (b "[1,]") .more == .error) = true := by decide
+example : (decodeOne (fun _ => false) (b "{\"a\":1,\"a\":\"x\"}") .eof == .error) = true := by decide
+example : (decodeOne ok (b "{\"b\":1,\"a\":2,\"b\":\"\\ud83d\\ude00\\ud800\"}") .eof   -- U+1F600, lone surrogate
+            == .value (.obj [(b "a", .num (b "2")), (b "b", .str [0xF0, 0x9F, 0x98, 0x80, 0xEF, 0xBF, 0xBD])]) []) = true := by
+  decide +kernel   -- plain `decide` (elaborator whnf, no sharing) is too slow on this longer input
+example : marshalIndent (.obj [(b "b", .arr [.num (b "1"), .arr [], .obj []]), (b "a", .str [0x3C, 0xFF, 0x0A])])
+            = b "{\n  \"a\": \"\\u003c\\ufffd\\n\",\n  \"b\": [\n    1,\n    [],\n    {}\n  ]\n}" := by decide
+
 end Json
 end Jqawk
